@@ -108,7 +108,7 @@ fn server_scenario(rep: &mut Report, pool: &Pool, res: &Resources, req: &WireReq
     let panicked;
     {
         let mut rec = Recorder::new();
-        rec.script.features = VIRTIO_F_PROTOCOL_FEATURES | 3;
+        rec.script.features = VIRTIO_F_PROTOCOL_FEATURES | VIRTIO_F_LOG_ALL | 3;
         rec.script.proto = PF_ALL_DEFINED;
         rec.keep_files = keep;
         // files the application hands to the library BY VALUE for a reply (inflight area, shared
@@ -117,7 +117,7 @@ fn server_scenario(rep: &mut Report, pool: &Pool, res: &Resources, req: &WireReq
         rec.script.state_returns_file = nfds % 2 == 1;
         let s = RawSession::new(rec);
         if negotiated {
-            s.negotiate(VIRTIO_F_PROTOCOL_FEATURES | 3, PF_ALL_DEFINED);
+            s.negotiate(VIRTIO_F_PROTOCOL_FEATURES | VIRTIO_F_LOG_ALL | 3, PF_ALL_DEFINED);
         }
         let (hdr, body) = shape_bytes(req, sh);
         let fds = pool.raw(nfds);
